@@ -65,7 +65,11 @@ def shapes(tier):
     s.append(M(5, 32, 0, W(M(3, 16, 0, W(M(2, 8, 0, R()), sparse=True, name=False)), sparse=True), R("imp")))  # sparse chain
     s.append(M(5, 32, 0, W(M(4, 32, 0, W(M(3, 16, 1, R()), sparse=False), R("imp")), name=False), R()))  # dense below ratio-1
     s.append(M(5, 32, 1, R(), W(M(3, 32, 0, W(M(2, 32, 0, R()), mode="imp"), R("imp")), mode="imp")))  # depth 3
+    # windows SMALLER than the parent's alignment granule: their range is padded, and the padding decodes to nothing
+    s.append(M(5, 32, 3, R("imp"), W(M(2, 32, 0, R(), R("imp"))), R("imp")))                         # 4-address window, granule 8
+    s.append(M(5, 32, 2, W(M(3, 8, 2, R(), R("imp")), sparse=False, mode="imp"), R("imp")))             # dense 4: 2 addresses, granule 4
     if tier == "thorough":
+        s.append(M(6, 32, 4, W(M(3, 32, 2, W(M(1, 8, 0, R()), sparse=True, name=False), R("imp")), name=True), R("imp")))
         s.append(M(5, 32, 0, R(), W(leaf32(R(), R())), W(M(3, 16, 1, R()), sparse=False)))
         s.append(M(5, 32, 0, W(M(3, 16, 1, R(), R()), sparse=False), W(M(4, 8, 2, R()), sparse=False, name=False), R("imp")))
         s.append(M(6, 32, 0, W(M(4, 32, 0, W(M(2, 32, 0, R(), R("imp")), name=False), W(M(2, 8, 0, R()), sparse=True)), name=True), R()))
